@@ -16,7 +16,9 @@
  * two accesses.  There are no false positives with respect to the modelled synchronisation; the explorer supplies the schedules.
  * free() / realloc() forget the shadow of the block (the allocator orders reuse).
  *
- * Not seen: accesses made inside libc / GnuTLS on the library's behalf (memcpy, memset ...), accesses by the harness itself.
+ * memcpy / memmove / memset / memcmp calls of the library are routed through rc_mem*() below (macro renaming at compile time) and
+ * count as accesses of the calling function.  Not seen: accesses made inside other libc functions (strlen, snprintf ...) and inside
+ * GnuTLS on the library's behalf, accesses by the harness itself.
  */
 #ifndef _GNU_SOURCE
 #define _GNU_SOURCE
@@ -345,6 +347,43 @@ realloc(void *p, size_t n) {
   if (rc_on && p)
     rc_forget(p, malloc_usable_size(p));
   return __libc_realloc(p, n);
+}
+
+/* The library objects of this stage are compiled with -Dmemcpy=rc_memcpy etc.: what libcoap copies / fills / compares through the C
+ * library is an access of libcoap too (the C library itself is not instrumented). */
+NOINSTR void *rc_memcpy(void *d, const void *s, size_t n);
+NOINSTR void *rc_memmove(void *d, const void *s, size_t n);
+NOINSTR void *rc_memset(void *d, int c, size_t n);
+NOINSTR int rc_memcmp(const void *a, const void *b, size_t n);
+void *
+rc_memcpy(void *d, const void *s, size_t n) {
+  if (n) {
+    rc_access((uintptr_t)s, n, 0, (uintptr_t)__builtin_return_address(0));
+    rc_access((uintptr_t)d, n, 1, (uintptr_t)__builtin_return_address(0));
+  }
+  return (memcpy)(d, s, n);
+}
+void *
+rc_memmove(void *d, const void *s, size_t n) {
+  if (n) {
+    rc_access((uintptr_t)s, n, 0, (uintptr_t)__builtin_return_address(0));
+    rc_access((uintptr_t)d, n, 1, (uintptr_t)__builtin_return_address(0));
+  }
+  return (memmove)(d, s, n);
+}
+void *
+rc_memset(void *d, int c, size_t n) {
+  if (n)
+    rc_access((uintptr_t)d, n, 1, (uintptr_t)__builtin_return_address(0));
+  return (memset)(d, c, n);
+}
+int
+rc_memcmp(const void *a, const void *b, size_t n) {
+  if (n) {
+    rc_access((uintptr_t)a, n, 0, (uintptr_t)__builtin_return_address(0));
+    rc_access((uintptr_t)b, n, 0, (uintptr_t)__builtin_return_address(0));
+  }
+  return (memcmp)(a, b, n);
 }
 
 /* the compiler's instrumentation calls */
